@@ -426,3 +426,169 @@ func CompletionShapes() []*prog.Program {
 	}
 	return out
 }
+
+func sig(ref string) []prog.EvDef { return []prog.EvDef{{K: "signal", Ref: ref}} }
+
+// CatchShapes: the C11 corpus: 1..3 catch events in sequence and in parallel,
+// one on a branch never taken, one behind a task (armed late), signal and
+// message events.
+func CatchShapes() []*prog.Program {
+	var out []*prog.Program
+	mk := func(name string, f func(b *prog.Builder), tags ...string) {
+		b := prog.NewBuilder(name)
+		f(b)
+		b.P.Tags = append(b.P.Tags, "catch")
+		b.P.Tags = append(b.P.Tags, tags...)
+		out = append(out, b.Done())
+	}
+	catchTask := func(b *prog.Builder, prev string, evs []prog.EvDef) string {
+		c := b.AddNode("catch", "")
+		b.N(c).Evs = evs
+		t := b.AddNode("task", "")
+		b.Connect(prev, c, prog.Cond{})
+		b.Connect(c, t, prog.Cond{})
+		return t
+	}
+	mk("catch_one", func(b *prog.Builder) {
+		s := b.AddNode("start", "")
+		t := catchTask(b, s, sig("A"))
+		e := b.AddNode("end", "")
+		b.Connect(t, e, prog.Cond{})
+	})
+	mk("catch_msg", func(b *prog.Builder) {
+		s := b.AddNode("start", "")
+		t := catchTask(b, s, []prog.EvDef{{K: "message", Ref: "M"}})
+		e := b.AddNode("end", "")
+		b.Connect(t, e, prog.Cond{})
+	}, "message")
+	mk("catch_seq2", func(b *prog.Builder) {
+		s := b.AddNode("start", "")
+		t := catchTask(b, s, sig("A"))
+		t2 := catchTask(b, t, sig("B"))
+		e := b.AddNode("end", "")
+		b.Connect(t2, e, prog.Cond{})
+	})
+	mk("catch_seq3_same", func(b *prog.Builder) {
+		s := b.AddNode("start", "")
+		t := catchTask(b, s, sig("A"))
+		t2 := catchTask(b, t, sig("A"))
+		t3 := catchTask(b, t2, sig("A"))
+		e := b.AddNode("end", "")
+		b.Connect(t3, e, prog.Cond{})
+	})
+	mk("catch_par2", func(b *prog.Builder) {
+		s := b.AddNode("start", "")
+		f := b.AddNode("and", "")
+		j := b.AddNode("and", "")
+		b.Connect(s, f, prog.Cond{})
+		t1 := catchTask(b, f, sig("A"))
+		t2 := catchTask(b, f, sig("B"))
+		b.Connect(t1, j, prog.Cond{})
+		b.Connect(t2, j, prog.Cond{})
+		e := b.AddNode("end", "")
+		b.Connect(j, e, prog.Cond{})
+	}, "and")
+	mk("catch_par2_same", func(b *prog.Builder) {
+		s := b.AddNode("start", "")
+		f := b.AddNode("and", "")
+		j := b.AddNode("and", "")
+		b.Connect(s, f, prog.Cond{})
+		t1 := catchTask(b, f, sig("A"))
+		t2 := catchTask(b, f, sig("A"))
+		b.Connect(t1, j, prog.Cond{})
+		b.Connect(t2, j, prog.Cond{})
+		e := b.AddNode("end", "")
+		b.Connect(j, e, prog.Cond{})
+	}, "and")
+	mk("catch_untaken", func(b *prog.Builder) {
+		s := b.AddNode("start", "")
+		x := b.AddNode("xor", "")
+		m := b.AddNode("xor", "")
+		b.Connect(s, x, prog.Cond{})
+		b.P.Vars0["v"] = 0
+		c1 := b.AddNode("catch", "")
+		b.N(c1).Evs = sig("A")
+		t1 := b.AddNode("task", "")
+		b.Connect(x, c1, prog.Cond{K: "eq", V: "v", C: 0})
+		b.Connect(c1, t1, prog.Cond{})
+		b.Connect(t1, m, prog.Cond{})
+		c2 := b.AddNode("catch", "")
+		b.N(c2).Evs = sig("B")
+		t2 := b.AddNode("task", "")
+		d := b.Connect(x, c2, prog.Cond{})
+		b.N(x).Default = d
+		b.Connect(c2, t2, prog.Cond{})
+		b.Connect(t2, m, prog.Cond{})
+		e := b.AddNode("end", "")
+		b.Connect(m, e, prog.Cond{})
+	}, "catch-untaken")
+	mk("catch_late", func(b *prog.Builder) {
+		s := b.AddNode("start", "")
+		t0 := b.AddNode("task", "")
+		b.Connect(s, t0, prog.Cond{})
+		t := catchTask(b, t0, sig("A"))
+		e := b.AddNode("end", "")
+		b.Connect(t, e, prog.Cond{})
+	}, "catch-late")
+	return out
+}
+
+// MultiCatchShapes: (parallel-)multiple intermediate catch events (C14 engine part).
+func MultiCatchShapes() []*prog.Program {
+	var out []*prog.Program
+	for _, par := range []bool{false, true} {
+		for n := 2; n <= 3; n++ {
+			b := prog.NewBuilder(fmt.Sprintf("multi_par%v_n%d", par, n))
+			s := b.AddNode("start", "")
+			c := b.AddNode("catch", "")
+			for i := 0; i < n; i++ {
+				b.N(c).Evs = append(b.N(c).Evs, prog.EvDef{K: "signal", Ref: string(rune('A' + i))})
+			}
+			b.N(c).Parallel = par
+			// the catch event sits in a loop so that it fires repeatedly
+			m := b.AddNode("xor", "")
+			t := b.AddNode("task", "")
+			b.N(t).Writes = []string{"again"}
+			b.P.Dom["again"] = []int{0, 1}
+			b.P.Vars0["again"] = 0
+			x := b.AddNode("xor", "")
+			e := b.AddNode("end", "")
+			b.Connect(s, m, prog.Cond{})
+			b.Connect(m, c, prog.Cond{})
+			b.Connect(c, t, prog.Cond{})
+			b.Connect(t, x, prog.Cond{})
+			b.Connect(x, m, prog.Cond{K: "eq", V: "again", C: 1})
+			d := b.Connect(x, e, prog.Cond{})
+			b.N(x).Default = d
+			b.P.Tags = append(b.P.Tags, "catch", "multi")
+			if par {
+				b.P.Tags = append(b.P.Tags, "parallel-multiple")
+			}
+			out = append(out, b.Done())
+		}
+	}
+	return out
+}
+
+// EventGatewayShapes: event-based gateway with 2..3 alternatives (C06).
+func EventGatewayShapes() []*prog.Program {
+	var out []*prog.Program
+	for n := 2; n <= 3; n++ {
+		b := prog.NewBuilder(fmt.Sprintf("evgw%d", n))
+		s := b.AddNode("start", "")
+		g := b.AddNode("evgw", "")
+		b.Connect(s, g, prog.Cond{})
+		for i := 0; i < n; i++ {
+			c := b.AddNode("catch", "")
+			b.N(c).Evs = sig(string(rune('A' + i)))
+			t := b.AddNode("task", "")
+			e := b.AddNode("end", "")
+			b.Connect(g, c, prog.Cond{})
+			b.Connect(c, t, prog.Cond{})
+			b.Connect(t, e, prog.Cond{})
+		}
+		b.P.Tags = append(b.P.Tags, "evgw", fmt.Sprintf("alts%d", n))
+		out = append(out, b.Done())
+	}
+	return out
+}
